@@ -115,13 +115,17 @@ def main():
             toks = [t for t in demo_cmd.split("#")[0].strip().split() if t]
             flt = toks[-1] if toks else ""
             if demo_hooks:
-                rc, out = sh("cargo test --offline --target-dir %s/target-hooks %s 2>&1 | tail -40" % (wt, flt), cwd=wt, env=henv)
+                rc, out = sh("cargo test --offline --target-dir %s/target-hooks %s 2>&1 | tail -80" % (wt, flt), cwd=wt, env=henv)
             else:
-                rc, out = sh("cargo test --offline %s 2>&1 | tail -40" % flt, cwd=wt, env=env)
+                rc, out = sh("cargo test --offline %s 2>&1 | tail -80" % flt, cwd=wt, env=env)
             sh("git apply -R %s" % demo_diff, cwd=wt)
-            m = re.search(r"test result: (\w+)\. (\d+) passed; (\d+) failed", out)
-            ok = bool(m and m.group(1) == "ok" and int(m.group(2)) > 0)
-            return ok, (m.group(0) if m else out[-400:])
+            # several test binaries may run (unit tests, tests/*.rs): all must be ok and the
+            # demonstration must actually have run somewhere
+            ms = re.findall(r"test result: (\w+)\. (\d+) passed; (\d+) failed", out)
+            ok = bool(ms) and all(x[0] == "ok" for x in ms) and sum(int(x[1]) for x in ms) > 0
+            bad = [x for x in ms if x[0] != "ok"]
+            txt = ("test result: %s. %s passed; %s failed" % (bad[0] if bad else max(ms, key=lambda x: int(x[1])))) if ms else out[-400:]
+            return ok, txt
         if demo_script:
             runner = "python3" if demo_script.endswith(".py") else "bash"
             rc, out = sh("%s %s" % (runner, demo_script), cwd=wt, env=env, timeout=1800)
